@@ -1,6 +1,6 @@
 (* C15 - Introspection XML round-trips every interface definition.
-   Statements only; proofs are in Proofs/SigSplitProofs.v and
-   Proofs/IntrospectProofs.v.
+   Statements only; proofs are in Proofs/SigSplitProofs.v,
+   Proofs/IntrospectProofs.v and Proofs/IfaceCacheProofs.v.
 
    Vocabulary (definitions in Model/Introspect.v, Model/SigSplit.v,
    Spec/SigTy.v, Spec/IntrospectSpec.v, Proofs/IntrospectProofs.v):
@@ -22,14 +22,29 @@
                           what the splitter yields, access one of the three modes)
      std_ifaces           the three interfaces of introspection._intro
      fresh r known ifs    r = true, or the names of ifs are pairwise distinct and
-                          none is in known *)
+                          none is in known
+   Mutable interface objects (Model/IfaceCache.v, Spec/IntrospectSpec.v "histories"):
+     cobj                 a DBusInterface object: its members (c_iface) and self._xml (c_xml)
+     cop, cstep, crun     addMethod/addSignal/addProperty (any object), delMethod/delSignal/
+                          delProperty, _getXml, as the code performs them; crun st ops = the
+                          object after the calls ops and what each returned or raised
+     gen_iface i          the XML (element events) _getXml generates from the members i
+     coherent st          self._xml is None or equals gen_iface of the members as they are
+     export_doc path st   generateIntrospectionXML for an object exporting this one
+                          interface (reads .introspectionXml, i.e. goes through the cache)
+     hop, in_force h      Spec: typed history (declare / delete / ask for XML) and the
+                          definition in force after it
+     cop_of               the call a step of a typed history makes
+     first_parsed r       the first interface object of a parse result *)
 From Tx Require Import Lib.Base.
 From Tx Require Import Model.SigSplit.
 From Tx Require Import Model.Introspect.
+From Tx Require Import Model.IfaceCache.
 From Tx Require Import Spec.SigTy.
 From Tx Require Import Spec.IntrospectSpec.
 From Tx Require Import Proofs.SigSplitProofs.
 From Tx Require Import Proofs.IntrospectProofs.
+From Tx Require Import Proofs.IfaceCacheProofs.
 
 (* --- the signature splitter ------------------------------------------------- *)
 
@@ -155,6 +170,46 @@ Theorem C15_cache_rule :
       = Ok (result_of (fold_left (expect_block replace) (ifs ++ std_ifaces) (heap, known, []))).
 Proof. exact parse_doc. Qed.
 
+(* --- interface objects that keep changing ------------------------------------------
+
+   gen_doc above generates the XML from the members of the exported objects;
+   the code goes through the per-object cache self._xml.  The two agree at
+   every moment of every life of an object: *)
+
+(* For every interface object that starts with an empty cache (as the
+   constructor leaves it) and every history of addMethod / addSignal /
+   addProperty (of any object, under a new or an existing name), delMethod /
+   delSignal / delProperty (present or not) and _getXml calls, of any length:
+   the cache is coherent afterwards, and a _getXml made then - whatever calls
+   follow - answers exactly what would be generated from the members as they
+   are at that moment (or raises what generating raises). *)
+Theorem C15_cache_coherent :
+  forall (i0 : iface) (pre post : list cop),
+    let st := fst (crun (mkC i0 None) pre) in
+    coherent st /\
+    nth_error (snd (crun (mkC i0 None) (pre ++ OGetXml :: post))) (length pre)
+    = Some (obs_of (gen_iface (c_iface st))).
+Proof. exact cache_coherent. Qed.
+
+(* Hence the round trip holds after any typed history: for every name and every
+   sequence of member declarations (names may repeat: re-declaration), member
+   deletions and requests for the XML, the object then shows exactly the
+   definition in force, and the document generated for an object exporting it
+   (at any path, in any world; replacement requested or the name not known)
+   parses to an object showing exactly the definition in force - not an
+   earlier one. *)
+Theorem C15_roundtrip_after_history :
+  forall (name : str) (h : list hop),
+    let st := fst (crun (c_new name) (map cop_of h)) in
+    declared name (in_force h) (observe (c_iface st)) /\
+    forall replace heap known path,
+      replace = true \/ alist_get str_eqb name known = None ->
+      exists evs r,
+        snd (export_doc path st) = Ok evs /\
+        first_parsed (parse replace heap known evs) = Some r /\
+        declared name (in_force h) (observe r).
+Proof. exact roundtrip_after_history. Qed.
+
 (* --- non-vacuity --------------------------------------------------------------------- *)
 
 (* the example signatures are valid DBus signatures with nested containers *)
@@ -178,3 +233,38 @@ Example C15_example_known :
         Some (Some (show_list ex_sig_in, show_list ex_sig_out, 3%Z, 1%Z), Some ([115%N], s_write)),
         Some 2%nat).
 Proof. exact example_reused. Qed.
+
+(* C15_cache_coherent is not a triviality of the model's shape: the variant of
+   the object whose addX resets the cache only when the member name is new
+   (Proofs/IfaceCacheProofs.v, c_add_stale_variant) violates it - declare M,
+   ask for the XML, declare M again with another signature, ask again *)
+Example C15_cache_stale_variant_refuted :
+  exists i0 pre post,
+    let st := fst (crun_stale_variant (mkC i0 None) pre) in
+    nth_error (snd (crun_stale_variant (mkC i0 None) (pre ++ OGetXml :: post))) (length pre)
+    <> Some (obs_of (gen_iface (c_iface st))).
+Proof. exact stale_variant_differs. Qed.
+
+(* ... while the model answers two different documents on that history *)
+Example C15_example_redeclare :
+  map (fun o => match o with RXml x => Some (length x) | _ => None end)
+      (snd (crun (c_new ex_iname) (ex_redeclare ++ [OGetXml])))
+  = [None; Some 8%nat; None; Some 8%nat] /\
+  nth_error (snd (crun (c_new ex_iname) (ex_redeclare ++ [OGetXml]))) 1
+  <> nth_error (snd (crun (c_new ex_iname) (ex_redeclare ++ [OGetXml]))) 3.
+Proof. exact redeclare_regenerates. Qed.
+
+(* a history with re-declaration of a method, a signal and a property after the
+   XML had been produced, a deletion, a failing deletion and a re-addition: the
+   XML asked for in between has 16, 20, 14 element events, the final document
+   (34 events) parses to the definitions in force *)
+Example C15_example_history :
+  ex_history_run
+  = ([None; None; None; Some 16%nat; None; None; None; Some 20%nat; None; Some 14%nat; Some 0%nat; None],
+     Some (34%nat,
+           Some (show_list [ex_s; TArr (TEntry ex_s TVariant)], show_list [TStruct [ex_i; ex_i]], 2%Z, 1%Z),
+           Some ([], 0%Z),
+           Some ([117%N], s_readwrite))) /\
+  map (fun d => match d with TMethod n _ _ => n | TSignal n _ => n | TProperty n _ _ _ => n end)
+      (in_force ex_history) = [ex_M; ex_P; ex_M; ex_P; ex_S].
+Proof. exact example_history. Qed.
